@@ -30,7 +30,7 @@ def run(ctx):
 
     def build():
         try:
-            built["bin"] = ctx.go_build("rowdelete")
+            built["bin"] = ctx.go_build("rowdelete", timeout=3600)
         except BaseException as e:  # noqa
             built["err"] = e
 
